@@ -416,6 +416,7 @@ async fn run_case(case: usize, mut rng: Rng, progress: Arc<AtomicU64>) -> (Strin
       let u = m.split('@').next().unwrap_or("");
       if !live_users.contains(u) {
         c.fails.push(format!("C05: [ghost-member] MEMBERS of {h} lists {m}, who has no live connection"));
+        c.fails.push(format!("C14: [slot-not-released] {m} has no live connection but still occupies a member slot of {h}"));
       }
     }
   }
@@ -435,6 +436,7 @@ async fn run_case(case: usize, mut rng: Rng, progress: Arc<AtomicU64>) -> (Strin
       let anyone = channels_of.values().any(|s| s.contains(&full(h)));
       if reason == "USER_NOT_IN_CHANNEL" && !anyone {
         c.fails.push(format!("C05: [ghost-channel] channel {h} exists although no live user is a member of it"));
+        c.fails.push(format!("C14: [slot-not-released] channel {h} has no live member but still exists and counts towards max_channels"));
       }
       if reason == "CHANNEL_NOT_FOUND" && anyone {
         c.fails.push(format!("C05: [existence] a live user lists {h} but the server says CHANNEL_NOT_FOUND"));
@@ -465,6 +467,17 @@ async fn run_case(case: usize, mut rng: Rng, progress: Arc<AtomicU64>) -> (Strin
         }
       }
     }
+    // users whose connections have all ended come back under the same name (new sessions that join nothing): whatever is
+    // published from now on must not reach them
+    let mut returned: Vec<(usize, String)> = Vec::new();
+    for name in USERS {
+      if !live_users.contains(*name) {
+        let k = c.open_identify(name).await;
+        if c.user.contains_key(&k) {
+          returned.push((k, name.to_string()));
+        }
+      }
+    }
     // canary: join / broadcast / leave
     for h in CHANS {
       let id = c.id();
@@ -477,6 +490,22 @@ async fn run_case(case: usize, mut rng: Rng, progress: Arc<AtomicU64>) -> (Strin
         c.fails.push(format!("C13: [canary] JOIN {h} by a new user was not answered at quiescence"));
       }
       if acked {
+        let before: BTreeMap<usize, usize> = c.inbox.iter().map(|(k, v)| (*k, v.len())).collect();
+        let id = c.id();
+        c.request(z, Req::Broadcast { id, chan: full(h), qos: None, payload: format!("canary-{h}").into_bytes() }).await;
+        if !modu.parked().is_empty() {
+          modu.release(0, true);
+        }
+        c.pump(5).await;
+        for (k, name) in &returned {
+          let v = c.inbox.get(k).cloned().unwrap_or_default();
+          let new = &v[before.get(k).copied().unwrap_or(0).min(v.len())..];
+          if new.iter().any(|f| matches!(&f.msg, Message::Message(p) if p.channel.as_ref() == full(h))) {
+            c.fails.push(format!(
+              "C01: [departed-user-delivery] {name} reconnected (connection {k}) after all its connections had closed and joined nothing, yet received a MESSAGE of {h}"
+            ));
+          }
+        }
         let id = c.id();
         c.request(z, Req::Leave { id, chan: full(h), ob: None }).await;
         if c.replies(z, id).is_empty() {
